@@ -2,6 +2,7 @@ import ParryModel.Field
 import ParryModel.C12.Lemmas8
 import ParryModel.C12.Lemmas9
 import ParryModel.C12.Lemmas10
+import ParryModel.C12.Theorems2
 /-!
 # C12 theorems, eleventh pass (fu5): `fix_silhouette_topology` and `remove_unused_points`, for **every** `Num` instance
 (`Float` included): statements about indices, flags and lists, never about arithmetic.
@@ -215,5 +216,78 @@ theorem hull3_vertices_are_input_points (negMax : K) (orig : Array (V3 K)) (evec
         rw [← e1]; simp
       rw [this]; exact ⟨b1, b2, b3⟩
   all_goals exact absurd h (by simp)
+
+/-- **the low-dimensional branches of `try_convex_hull`** (`InitialMesh::ResultMesh`: a point, a segment, or the two-sided fan over
+the modelled 2-D hull of the projected cloud) return only input points, and every triangle index is a valid vertex index.
+In the planar branch distinct vertices come from distinct input indices. -/
+theorem hull3_lowdim_vertices_are_input_points (negMax : K) (orig : Array (V3 K)) (evec : List (V3 K)) (eval : List K)
+    (V : Array (V3 K)) (T : Array T3) (hn : 0 < orig.size)
+    (h : lowDimMesh negMax orig evec eval = some (.ok (V, T))) :
+    (∃ org : Nat → Nat, ∀ k, k < V.size → org k < orig.size ∧ V[k]? = orig[org k]?) ∧
+    (∀ t : T3, t ∈ T.toList → t.a < V.size ∧ t.b < V.size ∧ t.c < V.size) := by
+  unfold lowDimMesh at h
+  simp only at h
+  split at h
+  · -- a single point
+    simp only [Option.some.injEq, Res.ok.injEq, Prod.mk.injEq] at h
+    obtain ⟨rfl, rfl⟩ := h
+    refine ⟨⟨fun _ => 0, fun k hk => ⟨hn, ?_⟩⟩, fun t ht => ?_⟩
+    · have : k = 0 := by simpa using hk
+      subst this; simpa using pAt_lt orig 0 hn
+    · simp at ht; subst ht; simp
+  · -- a segment between two support points
+    simp only [Option.some.injEq, Res.ok.injEq, Prod.mk.injEq] at h
+    obtain ⟨rfl, rfl⟩ := h
+    refine ⟨⟨fun k => if k = 0 then cloudSupportId (sortPairs (evec.zip eval) |>.headD (V3.zero, 0)).1 orig
+      else cloudSupportId (sortPairs (evec.zip eval) |>.headD (V3.zero, 0)).1.neg orig, fun k hk => ?_⟩, fun t ht => ?_⟩
+    · have hk' : k = 0 ∨ k = 1 := by simp at hk; omega
+      rcases hk' with rfl | rfl
+      · exact ⟨by simpa using cloudSupportId_lt _ orig hn, by simpa using pAt_lt orig _ (cloudSupportId_lt _ orig hn)⟩
+      · exact ⟨by simpa using cloudSupportId_lt _ orig hn, by simpa using pAt_lt orig _ (cloudSupportId_lt _ orig hn)⟩
+    · simp at ht; rcases ht with rfl | rfl <;> simp
+  · -- planar: two-sided fan over the 2-D hull
+    split at h
+    · exact absurd h (by simp)
+    · rename_i idx hidx
+      simp only [Option.some.injEq, Res.ok.injEq, Prod.mk.injEq] at h
+      obtain ⟨rfl, rfl⟩ := h
+      have hval := convexHull2Idx_indices_valid _ _ _ idx hidx
+      have hsz : ∀ j, j ∈ idx → j < orig.size := by
+        intro j hj
+        have := hval j hj
+        simpa [normalizeCloud_size] using this
+      refine ⟨⟨fun k => idx.getD k 0, fun k hk => ?_⟩, fun t ht => ?_⟩
+      · have hk' : k < idx.length := by simpa using hk
+        have hm : idx[k] ∈ idx := List.getElem_mem hk'
+        have hg : idx.getD k 0 = idx[k] := by simp [List.getD, hk']
+        show idx.getD k 0 < orig.size ∧ (List.map (pAt orig) idx).toArray[k]? = orig[idx.getD k 0]?
+        rw [hg]
+        refine ⟨hsz _ hm, ?_⟩
+        simp only [List.getElem?_toArray, List.getElem?_map, List.getElem?_eq_getElem hk', Option.map_some]
+        exact pAt_lt orig _ (hsz _ hm)
+      · simp only [List.toList_toArray, List.mem_append, List.mem_map, List.size_toArray, List.length_map] at ht ⊢
+        rcases ht with ⟨id, hid, rfl⟩ | ⟨id, hid, rfl⟩
+        · have h1 := List.mem_range.mp (List.mem_of_mem_drop hid)
+          simp only; omega
+        · have h1 := List.mem_range.mp hid
+          simp only; omega
+  · exact absurd h (by simp)
+
+/-! ## non-vacuity -/
+
+/-- two facets sharing the vertex 1 as `second` end point of their half-edge 0: a pinched silhouette -/
+def exPinched : Array (Facet Rat) :=
+  #[⟨true, false, V3.zero, ⟨0, 0, 0⟩, ⟨0, 0, 0⟩, ⟨0, 1, 2⟩, #[]⟩, ⟨true, false, V3.zero, ⟨0, 0, 0⟩, ⟨0, 0, 0⟩, ⟨3, 1, 4⟩, #[]⟩]
+
+/-- `needs_fixing` is reachable: the repair branch of `fixSilhouette_spec` is not vacuous -/
+example : (countSeconds 5 exPinched #[(0, 0), (1, 0)]).2 = true :=
+  (needsFixing_iff_repeated_vertex 5 exPinched #[(0, 0), (1, 0)]).mpr ⟨1, by decide, by decide⟩
+
+/-- ... and the no-repair side (`noRepair_iff_nodup`, hypothesis and right-hand side) holds on a simple loop -/
+example : (∀ e, e ∈ (#[(0, 0), (1, 2)] : Array (Nat × Nat)).toList → secondOf exPinched e < 5) ∧
+    ((#[(0, 0), (1, 2)] : Array (Nat × Nat)).toList.map (secondOf exPinched)).Nodup := by decide
+
+/-- the hypothesis of `removeUnused_spec` on a buffer that leaves points 1 and 4 unused -/
+example : ∀ t : T3, t ∈ (#[⟨0, 2, 3⟩, ⟨3, 2, 5⟩] : Array T3).toList → t.a < 6 ∧ t.b < 6 ∧ t.c < 6 := by decide
 
 end C12
